@@ -220,3 +220,27 @@ package bigslice
 //@   modifies unknown
 //@   loop 1 invariant forall(i, 0, len(f.args), f.args[i] != nil && f.args[i] == old(f.args[i]))
 //@   loop 1 invariant len(argTypes) == len(args) && fresh(argTypes) && forall(j, 0, range_idx, j < len(f.args) && ite(rvValid(old(args[j])), argTypes[j] == rvType(old(args[j])), nilAssignableKind(rtKind(f.args[j])) && argTypes[j] == f.args[j])) && forall(j, range_idx, len(args), args[j] == old(args[j]))
+
+// ---- C16: the registry diff is empty exactly when the two location lists agree ----
+
+//@ spec func sameLocs(a, b []string) bool = len(a) == len(b) && forall(k, 0, len(a), a[k] == b[k])
+
+// the edit recorded in cell (i, j) is consistent with its position: "keep" only where the two heads are equal
+// (and always there), "add" only with something left on the right, "delete" only with something left on the left
+//@ spec func wfCell(e int, lhs []string, rhs []string, i int, j int) bool = (e == 0 || e == 1 || e == 2) && implies(e == 0, (i == 0 && j == 0) || (i > 0 && j > 0 && lhs[i-1] == rhs[j-1])) && implies(e == 1, j > 0) && implies(e == 2, i > 0) && implies(i > 0 && j > 0 && lhs[i-1] == rhs[j-1], e == 0)
+
+//@ func bigslice.FuncLocationsDiff (lhs, rhs) (d)
+//@   ensures  empty-only-if-equal: implies(len(d) == 0, sameLocs(lhs, rhs))
+//@   ensures  equal-only-if-empty: implies(sameLocs(lhs, rhs), len(d) == 0)
+//@   ensures  nil-when-equal: implies(sameLocs(lhs, rhs), d == nil)
+//@   ensures  bounded: len(d) <= len(lhs) + len(rhs)
+//@   modifies nothing
+//@   loop 1 invariant len(cells) == len(lhs) + 1 && fresh(cells) && forall(a, 0, range_idx, len(cells[a]) == len(rhs) + 1 && fresh(cells[a]) && cells[a].off == 0 && forall(b, 0, len(rhs) + 1, cells[a][b].edit == 0)) && forall(a, 0, range_idx, forall(b, 0, range_idx, implies(a != b, cells[a].arr != cells[b].arr)))
+//@   loop 2 invariant 1 <= i && i <= len(lhs) + 1 && forall(a, 1, i, cells[a][0].edit == 2) && forall(a, 0, len(lhs) + 1, forall(b, 0, len(rhs) + 1, implies(b > 0 || a == 0 || a >= i, cells[a][b].edit == 0)))
+//@   loop 3 invariant 1 <= j && j <= len(rhs) + 1 && forall(a, 1, len(lhs) + 1, cells[a][0].edit == 2) && forall(b, 1, j, cells[0][b].edit == 1) && forall(a, 0, len(lhs) + 1, forall(b, 0, len(rhs) + 1, implies((a > 0 && b > 0) || (a == 0 && (b == 0 || b >= j)), cells[a][b].edit == 0)))
+//@   loop 4 invariant 1 <= i && i <= len(lhs) + 1 && cells[0][0].edit == 0 && forall(a, 1, len(lhs) + 1, cells[a][0].edit == 2) && forall(b, 1, len(rhs) + 1, cells[0][b].edit == 1) && forall(a, 1, i, forall(b, 1, len(rhs) + 1, wfCell(cells[a][b].edit, lhs, rhs, a, b))) && forall(a, i, len(lhs) + 1, forall(b, 1, len(rhs) + 1, cells[a][b].edit == 0))
+//@   loop 5 invariant 1 <= j && j <= len(rhs) + 1 && cells[0][0].edit == 0 && forall(a, 1, len(lhs) + 1, cells[a][0].edit == 2) && forall(b, 1, len(rhs) + 1, cells[0][b].edit == 1) && forall(a, 1, i, forall(b, 1, len(rhs) + 1, wfCell(cells[a][b].edit, lhs, rhs, a, b))) && forall(b, 1, j, wfCell(cells[i][b].edit, lhs, rhs, i, b)) && forall(b, j, len(rhs) + 1, cells[i][b].edit == 0) && forall(a, i + 1, len(lhs) + 1, forall(b, 1, len(rhs) + 1, cells[a][b].edit == 0))
+//@   loop 6 invariant 0 <= i && i <= len(lhs) && 0 <= j && j <= len(rhs) && (d == nil || fresh(d)) && len(d) <= (len(lhs) - i) + (len(rhs) - j) && implies(differ, len(d) > 0)
+//@   loop 6 invariant suffix-equal: implies(!differ, len(lhs) - i == len(rhs) - j && forall(k, i, len(lhs), lhs[k] == rhs[k - i + j]))
+//@   loop 6 invariant equal-lists-never-differ: implies(sameLocs(lhs, rhs), i == j && !differ)
+//@   loop 7 invariant -1 <= i && i < len(d) && 2*(i+1) <= len(d) && fresh(d) && len(d) > 0
